@@ -18,6 +18,7 @@ import (
 	"sort"
 	"strings"
 
+	"github.com/Eyevinn/mp4ff/avc"
 	"github.com/Eyevinn/mp4ff/bits"
 	"github.com/Eyevinn/mp4ff/mp4"
 	"verifharness/c01/bx"
@@ -820,6 +821,74 @@ func doBuiltBoxes(seed uint64) {
 	}
 }
 
+// doCodeSelected: layouts chosen by a CODE (a byte compared against a hard-coded list) are exercised for EVERY value of
+// the code, not for sampled ones: a list that differs between Size() and the encoder / decoder shows only for the values
+// on which the two lists disagree.  (a) avcC: AVCProfileIndication 0..255, built (with / without NoTrailingInfo, with / without
+// parameter sets) and decoded by both decoders from bytes with and without the four trailing bytes; (b) the version byte
+// 0..255 of every version-dependent box a constructor makes, patched into the encoded box and decoded by both decoders.
+func doCodeSelected() {
+	sps := []byte{0x67, 0x64, 0x00, 0x1e, 0xac, 0xd9, 0x40}
+	pps := []byte{0x68, 0xeb, 0xe3}
+	decodeBoth := func(raw []byte, how string) {
+		for sr := 0; sr < 2; sr++ {
+			var b mp4.Box
+			var err error
+			p := hx.Try(func() {
+				if sr == 1 {
+					b, err = mp4.DecodeBoxSR(0, bits.NewFixedSliceReader(raw))
+				} else {
+					b, err = mp4.DecodeBox(0, bytes.NewReader(raw))
+				}
+			})
+			if p != "" || err != nil || b == nil {
+				continue
+			}
+			boxCheck(b, fmt.Sprintf("%s decoded (sr=%d) from %x", how, sr, raw))
+		}
+	}
+	for v := 0; v < 256; v++ {
+		for k := 0; k < 4; k++ {
+			rec := avc.DecConfRec{AVCProfileIndication: byte(v), ProfileCompatibility: 0, AVCLevelIndication: 30,
+				ChromaFormat: 1, NoTrailingInfo: k&1 != 0}
+			if k&2 != 0 {
+				rec.SPSnalus = [][]byte{append([]byte{}, sps...)}
+				rec.PPSnalus = [][]byte{append([]byte{}, pps...)}
+			}
+			boxCheck(&mp4.AvcCBox{DecConfRec: rec}, fmt.Sprintf("AvcCBox{AVCProfileIndication: %d, NoTrailingInfo: %v, %d SPS}", v, k&1 != 0, len(rec.SPSnalus)))
+		}
+		body := []byte{1, byte(v), 0, 30, 0xff, 0xe1, 0, byte(len(sps))}
+		body = append(body, sps...)
+		body = append(body, 1, 0, byte(len(pps)))
+		body = append(body, pps...)
+		for _, tail := range [][]byte{nil, {0xfd, 0xf8, 0xf8, 0}, {0xfd, 0xf8}} {
+			pl := append(append([]byte{}, body...), tail...)
+			raw := append([]byte{0, 0, 0, byte(8 + len(pl)), 'a', 'v', 'c', 'C'}, pl...)
+			decodeBoth(raw, fmt.Sprintf("avcC profile %d, %d trailing bytes,", v, len(tail)))
+		}
+	}
+	// version byte
+	var protos []mp4.Box
+	protos = append(protos, mp4.CreateMvhd(), mp4.CreateTkhd(), &mp4.MdhdBox{Timescale: 90000, Duration: 1000},
+		&mp4.MehdBox{FragmentDuration: 5000}, mp4.CreateTfdt(77), mp4.CreateSidx(9),
+		&mp4.ElstBox{Entries: []mp4.ElstEntry{{SegmentDuration: 1000, MediaTime: 0, MediaRateInteger: 1}}},
+		mp4.CreatePrftBox(0, 24, 1, mp4.NTP64(1<<40), 90000))
+	if sx, ok := protos[5].(*mp4.SidxBox); ok {
+		sx.SidxRefs = append(sx.SidxRefs, mp4.SidxRef{ReferencedSize: 1000, SubSegmentDuration: 90000, StartsWithSAP: 1, SAPType: 1})
+	}
+	for _, pb := range protos {
+		var buf bytes.Buffer
+		if p := hx.Try(func() { _ = pb.Encode(&buf) }); p != "" || buf.Len() < 12 {
+			continue
+		}
+		enc := buf.Bytes()
+		for v := 0; v < 256; v++ {
+			raw := append([]byte{}, enc...)
+			raw[8] = byte(v)
+			decodeBoth(raw, fmt.Sprintf("%s version byte %d,", pb.Type(), v))
+		}
+	}
+}
+
 func main() {
 	if len(os.Args) >= 2 && os.Args[1] == "corr" {
 		fs := flag.NewFlagSet("corr", flag.ExitOnError)
@@ -844,6 +913,7 @@ func main() {
 	nf := doFiles(*repo)
 	doBuilt(*seed, *n)
 	doBuiltBoxes(*seed)
+	doCodeSelected()
 	doSetters(*seed, *n, *repo)
 	doProgressive(*seed, *n/4+10, *repo)
 	doSencDecoded(*seed, *n+100)
